@@ -523,6 +523,154 @@ def check_kwfile(ctx, w, o):
         lro_ok(c, r_, "rest", pl)
 
 
+# ---------------------------------------------------------------- a proto module against a module the generated service code itself imports
+
+WRAPPER_MODULES = ("operation", "operation_async", "pagers", "extended_operation")
+# `google.api_core.operation` / `operation_async` (LRO futures), the service's own `pagers`, `google.api_core.extended_operation`: the wrapper
+# python types of `Method.client_output(_async)`; `Service.names` counts them as modules, so a types module of the same base name gets its
+# package-derived alias. (Names the TEMPLATES bind — retries, logging, re, grpc, ... — are findings/C01.json, not this class.)
+
+
+def build_wrapper_collision_api(name, shape):
+    """API-D: `acme/lib/v1/<name>.proto` next to `lib.proto` with the service (one plain, one paginated, one long-running method).
+    shape "metadata": only the LRO metadata type lives in `<name>.proto` (the realistic `operation.proto`);
+    shape "everything": request, response, page item, LRO response and LRO metadata types all live there."""
+    f1 = apigen.File(f"acme/lib/v1/{name}.proto", PKG)
+    f = apigen.File("acme/lib/v1/lib.proto", PKG).dep(f1.name)
+    every = shape == "everything"
+    home = f1 if every else f
+    meta = f1.msg("MoveBookMetadata"); meta.field("stage", "string", 1)
+    book = home.msg("Book"); book.field("name", "string", 1); book.field("title", "string", 2)
+    g = home.msg("GetBookRequest"); g.field("name", "string", 1)
+    mr = home.msg("MoveBookResponse"); mr.field("shelf", "string", 1)
+    lq = f.msg("ListBooksRequest"); lq.field("parent", "string", 1); lq.field("page_size", "int32", 2); lq.field("page_token", "string", 3)
+    lr = f.msg("ListBooksResponse"); lr.field("books", "message", 1, repeated=True, type_name=book); lr.field("next_page_token", "string", 2)
+    mq = f.msg("MoveBookRequest"); mq.field("name", "string", 1); mq.field("shelf", "string", 2)
+    s = f.service("Library")
+    s.method("GetBook", g, book, http=("get", "/v1/{name=books/*}"), sigs=["name"])
+    s.method("ListBooks", lq, lr, http=("get", "/v1/{parent=shelves/*}/books"), sigs=["parent"])
+    s.method("MoveBook", mq, "." + OP_FULL, http=("post", "/v1/{name=books/*}:move"), body="*", sigs=["name,shelf"],
+             lro=("MoveBookResponse", "MoveBookMetadata"))
+    return [f1, f]
+
+
+def check_wrapper_collision(ctx, name, shape, transport="grpc+rest"):
+    """the library imports; the plain call, the pager and the long-running call work for real with the sync and the asyncio client (and REST):
+    the pager yields the typed items, the operation completes and yields the typed result and metadata; the wire is the original"""
+    import base64
+    from google.longrunning import operations_pb2
+    files = build_wrapper_collision_api(name, shape)
+    payload = {"api": "wrapper-module-collision", "module": name, "shape": shape, "transport": transport}
+    ctx.count("position", f"types module named like an imported wrapper module: {name} ({shape})")
+    req = apigen.request(files, f"transport={transport},autogen-snippets=false")
+    res, err = genrun.try_generate(req)
+    if err:
+        ctx.fail(f"wrapper-collision:generation:{err[0]}", f"{name}.proto ({shape}): generator raised {err[0]}: {err[1]}", payload)
+        return
+    api, _ = genrun.build_api(req)
+    svc = api.services[f"{PKG}.Library"]
+    loc = rpc.py_locations(api, svc)
+    codec = rpc.Codec(files)
+    # T2: `Service.names` = own names + every module name the methods' ref_types (proto types and wrapper python types) take from two packages
+    ms = list(svc.methods.values())
+    own = sorted({svc.name, svc.client_name, svc.async_client_name})
+    from gapic.utils import to_snake_case
+    refs = [[t.ident.module, ".".join(t.ident.package)] for m in ms for t in m.ref_types]
+    mo = ctx.driver.ask([{"op": "c12.svcnames", "own": own, "methods": [to_snake_case(m.name) for m in ms], "refs": refs, "module": name}])[0]
+    ctx.traces += 1
+    if sorted(set(mo["names"])) != sorted(svc.names):
+        ctx.disagree("T2:c12.service-names", f"{name}.proto ({shape}): Service.names {sorted(svc.names)} vs model {sorted(set(mo['names']))}", payload)
+    for m in ms:
+        for t in m.ref_types:
+            if t.ident.module == name and bool(t.ident.module_alias) != mo["aliased"]:
+                ctx.disagree("T2:c12.module-alias", f"{name}.proto ({shape}), {m.name}: {'.'.join(t.ident.package)}.{name} aliased as {t.ident.module_alias!r}, "
+                                                    f"model says aliased={mo['aliased']}", payload)
+    enc = lambda full, d: base64.b64encode(codec.encode(full, d)).decode()
+    op = operations_pb2.Operation(name="operations/o1", done=True)
+    op.response.type_url = f"type.googleapis.com/{PKG}.MoveBookResponse"; op.response.value = codec.encode(f"{PKG}.MoveBookResponse", {"shelf": "shelves/s2"})
+    op.metadata.type_url = f"type.googleapis.com/{PKG}.MoveBookMetadata"; op.metadata.value = codec.encode(f"{PKG}.MoveBookMetadata", {"stage": "moved"})
+    op_json = json.dumps({"name": "operations/o1", "done": True, "response": {"@type": op.response.type_url, "shelf": "shelves/s2"},
+                          "metadata": {"@type": op.metadata.type_url, "stage": "moved"}})
+    books = [{"name": "books/b1", "title": "one"}, {"name": "books/b2", "title": "two"}, {"name": "books/b3", "title": "three"}]
+    pages = [{"books": books[:2], "next_page_token": "t2"}, {"books": books[2:]}]
+    jpage = lambda pg: json.dumps({json_name(k): v for k, v in pg.items()})
+    T = lambda m: rpc.py_type(svc.methods[m].input)
+    P = lambda m: f"/{PKG}.Library/{m}"
+    calls = []
+    for flat in (False, True):
+        how = "flattened" if flat else "request="
+        mode = "kwargs" if flat else "request-instance"
+        calls += [
+            {"tag": f"plain call ({how})", "method": "get_book", "mode": mode, "py_request": T("GetBook"), "kwargs": [["name", "name"]],
+             "expect": (f"{PKG}.GetBookRequest", {"name": "books/b1"}), "path": P("GetBook"), "http": ("/v1/{name=books/*}", None),
+             "replies": [enc(f"{PKG}.Book", books[0])], "rest_bodies": [json.dumps(books[0])], "consume": "value", "result": ("value", f"{PKG}.Book", books[0])},
+            {"tag": f"pager ({how})", "method": "list_books", "mode": mode, "py_request": T("ListBooks"), "kwargs": [["parent", "parent"]],
+             "expect": (f"{PKG}.ListBooksRequest", {"parent": "shelves/s1"}), "path": P("ListBooks"), "http": ("/v1/{parent=shelves/*}/books", None),
+             "replies": [enc(f"{PKG}.ListBooksResponse", pg) for pg in pages], "rest_bodies": [jpage(pg) for pg in pages], "consume": "pager",
+             "result": ("pager", f"{PKG}.Book", books)},
+            {"tag": f"long-running call ({how})", "method": "move_book", "mode": mode, "py_request": T("MoveBook"), "kwargs": [["name", "name"], ["shelf", "shelf"]],
+             "expect": (f"{PKG}.MoveBookRequest", {"name": "books/b1", "shelf": "shelves/s2"}), "path": P("MoveBook"), "http": ("/v1/{name=books/*}:move", "*"),
+             "replies": [base64.b64encode(op.SerializeToString()).decode()], "rest_bodies": [op_json], "consume": "lro",
+             "result": ("lro", f"{PKG}.MoveBookResponse", {"shelf": "shelves/s2"}, f"{PKG}.MoveBookMetadata", {"stage": "moved"})},
+        ]
+    for c in calls:
+        c["request_b64"] = codec.encode_b64(*c["expect"])
+    keep = ("method", "mode", "py_request", "kwargs", "request_b64", "consume")
+    gcalls = [dict({k: c[k] for k in keep}, script={c["path"]: [{"code": "OK", "replies": [r_]} for r_ in c["replies"]]}) for c in calls]
+    rcalls = [dict({k: c[k] for k in keep}, script=[{"status": 200, "body": b_} for b_ in c["rest_bodies"]]) for c in calls]
+    ops = [{"op": "import_all", "package": loc["package"]},
+           {"op": "grpc_session", "client": loc["client"], "transport": loc["grpc"], "async": False, "calls": gcalls},
+           {"op": "grpc_session", "client": loc["async_client"], "transport": loc["grpc_asyncio"], "async": True, "calls": gcalls}]
+    if "rest" in transport:
+        ops.append({"op": "rest_session", "client": loc["client"], "transport": loc["rest"], "calls": rcalls})
+    root = genrun.materialise(res)
+    try:
+        out = libhost.run(root, ops, timeout=300)
+    finally:
+        genrun.cleanup(root)
+    imp = out[0]
+    if "child_error" in imp or imp.get("errors"):
+        ctx.fail("wrapper-collision:import", f"{name}.proto ({shape}): library does not import: {str(imp.get('errors') or imp)[:300]}", payload)
+        return
+
+    def msg_is(x, full, want):
+        return isinstance(x, dict) and x.get("type") == full and codec.decode(full, x["b64"]) == codec.normal(full, want)
+    for kind, sess in zip(("sync", "asyncio", "rest"), out[1:]):
+        if "calls" not in sess:
+            ctx.fail("wrapper-collision:session", f"{name}.proto ({shape}): {kind} session failed: {str(sess)[-300:]}", payload)
+            continue
+        for c, r_ in zip(calls, sess["calls"]):
+            ctx.count("position", f"wrapper module collision: {c['tag']}:{kind}")
+            pl = {**payload, "position": c["tag"], "client": kind}
+            if "ok" not in r_:
+                ctx.fail("wrapper-collision:call", f"{name}.proto ({shape}), {c['tag']} ({kind}): call raised {r_.get('raised')}: {r_.get('msg', '')[:200]}", pl)
+                continue
+            srv = r_["server"]
+            full, want = c["expect"]
+            if kind == "rest":
+                got, problems = rest_wire_request(codec, full, srv[0], *c["http"]) if srv else (None, [("http-request", "no request reached the server")])
+                for k, text in problems:
+                    ctx.fail(f"wire:{k}", f"{name}.proto ({shape}), {c['tag']} (rest): {text}", pl)
+                if got is not None and {k: v for k, v in got.items() if k not in ("page_token", "page_size")} != codec.normal(full, want):
+                    ctx.fail("wire:http-request", f"{name}.proto ({shape}), {c['tag']} (rest): server read {got}, caller meant {want}", pl)
+            else:
+                if not srv or codec.decode(full, srv[0]["requests"][0]) != codec.normal(full, want):
+                    ctx.fail("wrapper-collision:wire", f"{name}.proto ({shape}), {c['tag']} ({kind}): server decoded "
+                                                       f"{codec.decode(full, srv[0]['requests'][0]) if srv else None}, caller meant {want}", pl)
+                if srv and srv[0]["path"] != c["path"]:
+                    ctx.fail("wire:rpc-path", f"{name}.proto ({shape}), {c['tag']} ({kind}): rpc path {srv[0]['path']!r}", pl)
+            ok, want_r = r_["ok"], c["result"]
+            if want_r[0] == "value":
+                good = msg_is(ok, want_r[1], want_r[2])
+            elif want_r[0] == "pager":
+                items = (ok or {}).get("items") or []
+                good = len(items) == len(want_r[2]) and all(msg_is(x, want_r[1], b) for x, b in zip(items, want_r[2]))
+            else:
+                good = msg_is((ok or {}).get("result"), want_r[1], want_r[2]) and msg_is((ok or {}).get("metadata"), want_r[3], want_r[4])
+            if not good:
+                ctx.fail("wrapper-collision:result", f"{name}.proto ({shape}), {c['tag']} ({kind}): the caller got {str(ok)[:260]}, expected {want_r}", pl)
+
+
 def check_bad_positions(ctx, w):
     """API-B: dotted http path variable and flattened non-terminal segment with a reserved word. Both were
     wrong before the C12 fix: commits (DESIGN §9-F1/F2); kept as regression inputs: they must compile AND import."""
@@ -768,6 +916,12 @@ def run(ctx):
         for o in dict.fromkeys([rk.pick(fres) for _ in range(1 if ctx.quick else 3)]):
             check_kwfile(ctx, w, o)
             ctx.case({"word": w, "other": o, "api": "keyword-file"}, distinct_key=["kwfile", w, o])
+    # a types module named like a module the generated service code imports for its wrapper types (+ one name that collides with nothing)
+    for name in WRAPPER_MODULES + ("catalog",):
+        for shape in ("metadata", "everything"):
+            for tr in (("grpc+rest",) if ctx.quick else ("grpc+rest", "grpc")):
+                check_wrapper_collision(ctx, name, shape, tr)
+                ctx.case({"api": "wrapper-module-collision", "module": name, "shape": shape, "transport": tr}, distinct_key=["wrapcol", name, shape, tr])
     for shape in ("different-messages", "one-message", "nested"):
         check_module_collisions(ctx, shape)
         ctx.case({"api": "module-collision", "shape": shape}, distinct_key=["modcol", shape])
@@ -783,6 +937,9 @@ def search(ctx):
     for w in sorted(set(kw) | {"metadata", "retry", "timeout", "request"}):
         if file_base_ok(w):
             check_kwfile(ctx, w, "type")
+    for name in WRAPPER_MODULES:
+        for shape in ("metadata", "everything"):
+            check_wrapper_collision(ctx, name, shape, "grpc+rest")
 
 
 def replay(ctx, payload):
@@ -791,6 +948,8 @@ def replay(ctx, payload):
     w = payload.get("word", "class")
     if payload.get("api") == "module-collision":
         check_module_collisions(ctx, payload.get("shape", "different-messages"))
+    elif payload.get("api") == "wrapper-module-collision":
+        check_wrapper_collision(ctx, payload.get("module", "operation"), payload.get("shape", "metadata"), payload.get("transport", "grpc+rest"))
     elif payload.get("api") == "keyword-file":
         check_kwfile(ctx, w, payload.get("other", "type"))
     elif payload.get("api") == "safe-positions":
